@@ -1,8 +1,10 @@
 package props
 
 import (
+	"bytes"
 	"fmt"
 	"math/rand"
+	"os"
 	"strings"
 	"time"
 
@@ -32,6 +34,7 @@ func c06Parent(c *mon.Ctx) {
 	sh = append(sh, shards("plain", "catalogue", 4)...)
 	sh = append(sh, shards("plain", "corpus", 1)...)
 	sh = append(sh, shards("plain", "comments", 2, "-n", fmt.Sprint(per/2))...)
+	sh = append(sh, shards("plain", "cli-funnel", 2, "-n", fmt.Sprint(per/2))...)
 	for i := range sh {
 		sh[i].Timeout = 30 * time.Minute
 	}
@@ -303,6 +306,49 @@ func c06Child(a *ChildArgs) {
 							break
 						}
 					}
+				}
+			}
+		}
+	case "cli-funnel":
+		// the CLI's whole formatting path (what format prints and what format -i writes), not just its layout engine:
+		// the text that comes out must still mean the input
+		avoid := mon.AvoidFeatures()
+		base := a.Seed*7919 + int64(a.Shard)*104729 + 9
+		dir := fmt.Sprintf("/verif/run/C06/funnel-%d-%d", a.Shard, os.Getpid())
+		os.MkdirAll(dir, 0755)
+		defer os.RemoveAll(dir)
+		path := dir + "/f.sql"
+		for i := 0; i < a.N; i++ {
+			seed := base + int64(i)*15485863
+			g := gen.New(rand.New(rand.NewSource(seed)), avoid)
+			x := g.Statement(2)
+			sql := gen.Plain(x.Toks)
+			t0, err := gosqlx.Parse(sql)
+			if err != nil {
+				continue
+			}
+			want := dump.Tree(t0)
+			for _, o := range []gcmd.CLIFormatterOptions{{IndentSize: 2, Uppercase: true}, {IndentSize: 4}, {IndentSize: 2, Compact: true, Uppercase: true}} {
+				a.Rec.Count("evaluations", 1)
+				a.Rec.Distinct("inputs", sql)
+				os.WriteFile(path, []byte(sql), 0644)
+				var out, errb bytes.Buffer
+				_, ferr := gcmd.NewFormatter(&out, &errb, o).Format([]string{path})
+				name := fmt.Sprintf("cli.Formatter{up=%v,compact=%v,indent=%d}", o.Uppercase, o.Compact, o.IndentSize)
+				y := out.String()
+				wit := map[string]interface{}{"sql": sql, "serialiser": name, "output": y, "stderr": trunc(errb.String(), 300)}
+				if ferr != nil || errb.Len() > 0 {
+					a.Rec.Viol("C06/cli-funnel#serialiser-error", "serialiser-error", fmt.Sprintf("err=%v stderr=%s", ferr, firstLine(errb.String())), wit)
+					break
+				}
+				t2, err := gosqlx.Parse(y)
+				if err != nil {
+					a.Rec.Viol("C06/cli-funnel#output-rejected/"+errIdentity(err), "output-rejected", firstLine(err.Error())+" | output: "+trunc(y, 300), wit)
+					break
+				}
+				if d := dump.Diff(want, dump.Tree(t2)); d != "" {
+					a.Rec.Viol("C06/cli-funnel#tree-changed"+dump.DiffKey(d), "tree-changed", d+" | output: "+trunc(y, 300), wit)
+					break
 				}
 			}
 		}
